@@ -238,7 +238,7 @@ func c13GenOp(rnd *Rand, next *int) c12Op {
 	k := keys[rnd.Pick([]int{5, 3, 2})]
 	*next++
 	v := &c12Val{Tok: *next, Env: -1}
-	switch rnd.Pick([]int{5, 4, 5, 4, 2, 2, 2, 2, 1, 3}) {
+	switch rnd.Pick([]int{5, 4, 5, 4, 2, 2, 4, 2, 1, 4}) {
 	case 0:
 		return c12Op{K: "Define", E: 1, S: k, V: v}
 	case 1:
@@ -302,6 +302,16 @@ func c13Directed() []c13Program {
 		{Init: with(c12Op{K: "Define", E: 1, S: "a", V: tv(3)}), Threads: [][]c12Op{
 			{{K: "DeleteGlobal", E: 1, S: "a"}, {K: "Get", E: 1, S: "a"}},
 			{{K: "Delete", E: 1, S: "a"}, {K: "Define", E: 1, S: "a", V: tv(12)}, {K: "Get", E: 1, S: "p"}}}},
+		{Init: with(), Threads: [][]c12Op{ // a copy is one snapshot of values and types together
+			{{K: "Define", E: 1, S: "a", V: tv(11)}, {K: "DefineType", E: 1, S: "Ta", T: 3}},
+			{{K: "Snap", E: 1}}}},
+		{Init: with(), Threads: [][]c12Op{
+			{{K: "DefineType", E: 1, S: "Ta", T: 3}, {K: "Define", E: 1, S: "a", V: tv(11)}},
+			{{K: "Snap", E: 1}, {K: "Snap", E: 1}}}},
+		{Init: with(c12Op{K: "Define", E: 1, S: "a", V: tv(3)}, c12Op{K: "DefineType", E: 1, S: "Ta", T: 2}), Threads: [][]c12Op{
+			{{K: "Delete", E: 1, S: "a"}, {K: "DefineType", E: 1, S: "Tb", T: 4}},
+			{{K: "Snap", E: 1}},
+			{{K: "Symbols", E: 1}, {K: "TypeSymbols", E: 1}}}},
 		{Init: with(), Threads: [][]c12Op{
 			{{K: "Set", E: 1, S: "p", V: tv(11)}, {K: "Get", E: 1, S: "p"}},
 			{{K: "Define", E: 1, S: "p", V: tv(12)}, {K: "Delete", E: 1, S: "p"}},
